@@ -4,10 +4,12 @@
 (* satisfies the property predicates (Part 2) for every nf in 3..6, QCD and QED.*)
 (* The design switches (CONSTANTS of Flavors) must each be refuted.             *)
 EXTENDS Flavors
-VARIABLES nf, qed
-vars == <<nf, qed>>
-Init == nf \in NfRange /\ qed \in BOOLEAN
-Next == UNCHANGED vars
+VARIABLES nf, qed, go
+vars == <<nf, qed, go>>
+(* the eight instances are initial states on which nothing is evaluated; the predicates  *)
+(* are evaluated on their successors, so that TLC's workers share the instances          *)
+Init == nf \in NfRange /\ qed \in BOOLEAN /\ go = FALSE
+Next == go = FALSE /\ go' = TRUE /\ UNCHANGED <<nf, qed>>
 
 QcdSectorSeq == <<<<100, 100>>, <<100, 21>>, <<21, 100>>, <<21, 21>>,
                   <<NsMinus, 0>>, <<NsPlus, 0>>, <<NsV, 0>>>>
@@ -25,24 +27,24 @@ OmeSym == <<<<100, 100, 2>>, <<100, 21, 3>>, <<21, 100, 5>>, <<21, 21, 7>>, <<20
             <<91, 91, 31>>>>
 
 (* ---- the bases defined from their meaning are complete orthogonal bases ------------ *)
-InvBasis == LET R == BasisRows(nf, qed) IN Len(R) = N /\ C31_Orthogonal(R)
-InvDeltaDocs ==        \* FlavorSpace.rst: 2u+ - d+ - s+ ; 1 ; 3/2 ; 1
+P_InvBasis == LET R == BasisRows(nf, qed) IN Len(R) = N /\ C31_Orthogonal(R)
+P_InvDeltaDocs ==        \* FlavorSpace.rst: 2u+ - d+ - s+ ; 1 ; 3/2 ; 1
   DeltaAlpha(nf) = CASE nf = 3 -> <<2, 1>> [] nf = 4 -> <<1, 1>> [] nf = 5 -> <<3, 2>> [] nf = 6 -> <<1, 1>>
-InvSectorLabels == {SectorSeq(qed)[k] : k \in 1..Len(SectorSeq(qed))} = SectorLabels(qed)
+P_InvSectorLabels == {SectorSeq(qed)[k] : k \in 1..Len(SectorSeq(qed))} = SectorLabels(qed)
 
 (* ---- C31 ---------------------------------------------------------------------------- *)
 CodeBasis(q) == IF q THEN CodeUniBasis ELSE CodeEvolBasis
 CodeRot(q) == IF q THEN CodeRotUni ELSE CodeRotQcd
-InvC31Tables ==
+P_InvC31Tables ==
   /\ C31_LabelsOk(CodeBasis(qed), qed)
   /\ C31_RowsOk(CodeBasis(qed), CodeRot(qed))
   /\ C31_Orthogonal(CodeRot(qed))
-InvC31Ref == \A lab \in SectorLabels(qed) : C31_SectorMap(SectorMapRef(lab, nf, qed), lab, nf, qed)
-InvC31Available == \A lab \in SectorLabels(qed) : Available(lab, qed)
-InvC31Sector ==
+P_InvC31Ref == \A lab \in SectorLabels(qed) : C31_SectorMap(SectorMapRef(lab, nf, qed), lab, nf, qed)
+P_InvC31Available == \A lab \in SectorLabels(qed) : Available(lab, qed)
+P_InvC31Sector ==
   \A lab \in SectorLabels(qed) :
      Available(lab, qed) => C31_SectorMap(AdProjector(lab, nf, qed), lab, nf, qed)
-InvC31Diag ==
+P_InvC31Diag ==
   (\A lab \in DiagonalSectors(qed) : Available(lab, qed)) =>
      LET ds == SelectSeq(SectorSeq(qed), IsDiagonalSector)
          Ps == TLCEval([k \in 1..Len(ds) |-> AdProjector(ds[k], nf, qed)])
@@ -51,37 +53,51 @@ InvC31Diag ==
         /\ C31_Complete(Ps, nf, qed)
 
 (* ---- C32 ---------------------------------------------------------------------------- *)
-InvC32Weights ==
+P_InvC32Weights ==
   \A l \in Basis(nf, qed) : \A nz \in BOOLEAN : C32_Weights(Weights(l, nf, qed, nz), l, nf, nz)
 Blow(ms, nfin, nfout) ==
   /\ GetRange(ms) = <<nfin, nfout>>
   /\ C32_Range(GetRange(ms), {<<m[1], m[2]>> : m \in ms})
   /\ C32_BlowUp(ToFlavorTensor(ms, qed), ms, nfin, nfout, qed)
-InvC32Physical == Blow(PhysicalMembersOf(AdSym(qed), nf, qed), nf, nf)
-InvC32Matching == nf <= 5 => Blow(MatchingMembersOf(OmeSym, nf, qed), nf, nf)
+P_InvC32Physical == Blow(PhysicalMembersOf(AdSym(qed), nf, qed), nf, nf)
+P_InvC32Matching == nf <= 5 => Blow(MatchingMembersOf(OmeSym, nf, qed), nf, nf)
 (* label sets of products with the threshold rotation: basis nf+1 on one side, nf on the other *)
 Compose(L, R) ==      \* sets of triples; value: a fresh small integer per (target, input)
   LET keys == {<<l[1], r[2]>> : l \in {x \in L : \E y \in R : x[2] = y[1]}, r \in R}
       ks == {k \in keys : \E l \in L, r \in R : l[1] = k[1] /\ l[2] = r[1] /\ r[2] = k[2]}
       ps == SelectSeq(PairSeq, LAMBDA p : p \in ks)
   IN {<<ps[k][1], ps[k][2], RInt(k + 1)>> : k \in 1..Len(ps)}
-InvC32Rotated ==
+P_InvC32Rotated ==
   nf <= 5 =>
     /\ Blow(Compose(RotateMatching(nf + 1, qed, FALSE), MatchingMembersOf(OmeSym, nf, qed)), nf, nf + 1)
     /\ Blow(Compose(MatchingMembersOf(OmeSym, nf, qed), RotateMatching(nf + 1, qed, TRUE)), nf + 1, nf)
 
 (* ---- C33 ---------------------------------------------------------------------------- *)
-InvC33 ==
+P_InvC33 ==
   nf >= 4 => C33_Threshold(RotateMatching(nf, qed, FALSE), RotateMatching(nf, qed, TRUE), nf, qed)
 
 (* ---- C46 ---------------------------------------------------------------------------- *)
 XSym == [j \in 1..N |-> IntVec(<<j, ((j * j) % 7) - 3, 5 - j>>)]
 Proj(reprs) ==
   LET Y == Project(reprs, XSym) IN C46_Family(reprs) /\ C46_Projection(reprs, XSym, Y, Project(reprs, Y))
-InvC46 ==
+P_InvC46 ==
   LET R == BasisRows(nf, qed)
   IN /\ Proj(R)
      /\ Proj(SubSeq(R, 1, 5))
      /\ Proj(SubSeq(R, 4, 4))
      /\ Proj([k \in 1..4 |-> UnitVec(N, 2 * k + nf)])
+InvBasis == go => P_InvBasis
+InvDeltaDocs == go => P_InvDeltaDocs
+InvSectorLabels == go => P_InvSectorLabels
+InvC31Tables == go => P_InvC31Tables
+InvC31Ref == go => P_InvC31Ref
+InvC31Available == go => P_InvC31Available
+InvC31Sector == go => P_InvC31Sector
+InvC31Diag == go => P_InvC31Diag
+InvC32Weights == go => P_InvC32Weights
+InvC32Physical == go => P_InvC32Physical
+InvC32Matching == go => P_InvC32Matching
+InvC32Rotated == go => P_InvC32Rotated
+InvC33 == go => P_InvC33
+InvC46 == go => P_InvC46
 =============================================================================
